@@ -1018,85 +1018,9 @@ func ruleOutput(c *Ctx) {
 		c.check(bad == token.NoPos && len(waits) > 0, "wait-always:"+fnKey(fn), bad,
 			"every path (except the already-closed one) waits for the command",
 			fnKey(fn)+" can return without waiting for the command (for example after a failed flush): close() then reports -1 instead of the command's status and output the command still writes is lost or arrives after later output")
-		// the status close() reports is the one the wait returned: every store in Close to the field the stream's
-		// ExitCode method returns carries the first result of the wait, on the paths that waited
-		var codeField *types.Var
-		if recv := fn.Signature.Recv(); recv != nil {
-			if ec := c.Prog.LookupMethod(recv.Type(), fn.Pkg.Pkg, "ExitCode"); ec != nil && len(ec.Blocks) > 0 {
-				allInstrs(ec, func(in ssa.Instruction) {
-					if r, ok := in.(*ssa.Return); ok && len(r.Results) == 1 {
-						if f, _ := loadedField(r.Results[0]); f != nil {
-							codeField = f
-						}
-					}
-				})
-			}
-		}
-		if codeField != nil && len(waits) > 0 {
-			var fromWait func(v ssa.Value, d int) bool
-			fromWait = func(v ssa.Value, d int) bool {
-				if d > 4 {
-					return false
-				}
-				switch x := v.(type) {
-				case *ssa.Extract:
-					if call, ok := x.Tuple.(*ssa.Call); ok && x.Index == 0 {
-						for _, w := range waits {
-							if call.Block() == w {
-								return true
-							}
-						}
-					}
-				case *ssa.Call:
-					for _, w := range waits {
-						if x.Block() == w && x.Type().Underlying() == types.Typ[types.Int] {
-							return true
-						}
-					}
-				case *ssa.Phi:
-					for _, e := range x.Edges {
-						if !fromWait(e, d+1) {
-							return false
-						}
-					}
-					return len(x.Edges) > 0
-				case *ssa.ChangeType:
-					return fromWait(x.X, d+1)
-				case *ssa.Convert:
-					return fromWait(x.X, d+1)
-				}
-				return false
-			}
-			badSt, nSt := token.NoPos, 0
-			allInstrs(fn, func(in ssa.Instruction) {
-				st, ok := in.(*ssa.Store)
-				if !ok {
-					return
-				}
-				f, _ := fieldOfAddr(st.Addr)
-				if f != codeField {
-					return
-				}
-				waited := false
-				for _, w := range waits {
-					if w == in.Block() || w.Dominates(in.Block()) {
-						waited = true
-					}
-				}
-				if !waited {
-					return // before the wait: overwritten or on the already-closed path
-				}
-				nSt++
-				if !fromWait(st.Val, 0) {
-					badSt = posOr(in.Pos(), fn.Pos())
-				}
-			})
-			c.check(badSt == token.NoPos && nSt > 0, "close-status:"+fnKey(fn), posOr(badSt, fn.Pos()),
-				"the status kept for close() is the first result of the wait on every path that waited",
-				fnKey(fn)+" stores something other than the status the wait returned into "+codeField.Name()+" after waiting for the command (or never stores it): close() then reports a made-up status - for example -1 whenever the final flush met a closed pipe - instead of the command's exit status")
-		}
 	}
 	c.atLeast("command streams with a Close method", nWait, 2)
+	closeStatus(c)
 
 	// ---- AS-GIVEN: the caller's writers are used as they are; only the default stdout is buffered by the interpreter
 	if sec := c.ssaFunc("interp", "interp.setExecuteConfig"); sec != nil {
@@ -1333,4 +1257,116 @@ func interpFieldAliasOf(c *Ctx, name string) string {
 	}
 	c.memo[key] = res
 	return res
+}
+
+// closeStatus: the status close() reports is the one the wait returned. The fields that some ExitCode method of the
+// package returns are the status fields; a function that waits for a command itself (a direct call of waitExitCode)
+// and belongs to a type that carries a status field stores that field after the wait, and every such store carries
+// the first result of the wait - on every path, whatever the flush or the close of the pipe returned.
+func closeStatus(c *Ctx) {
+	codeFields := map[*types.Var]bool{}
+	for _, fn := range c.srcFuncs("interp") {
+		if fn.Name() != "ExitCode" || fn.Signature.Recv() == nil {
+			continue
+		}
+		allInstrs(fn, func(in ssa.Instruction) {
+			if r, ok := in.(*ssa.Return); ok && len(r.Results) == 1 {
+				if f, _ := loadedField(r.Results[0]); f != nil {
+					codeFields[f] = true
+				}
+			}
+		})
+	}
+	var hasCodeField func(t types.Type, d int) bool
+	hasCodeField = func(t types.Type, d int) bool {
+		st, ok := deref(t).Underlying().(*types.Struct)
+		if !ok || d > 3 {
+			return false
+		}
+		for i := 0; i < st.NumFields(); i++ {
+			if codeFields[st.Field(i)] {
+				return true
+			}
+			if st.Field(i).Embedded() && hasCodeField(st.Field(i).Type(), d+1) {
+				return true
+			}
+		}
+		return false
+	}
+	n := 0
+	for _, fn := range c.srcFuncs("interp") {
+		fn := fn
+		recv := fn.Signature.Recv()
+		if recv == nil || !hasCodeField(recv.Type(), 0) {
+			continue
+		}
+		var waits []*ssa.Call
+		allInstrs(fn, func(in ssa.Instruction) {
+			if call, ok := in.(*ssa.Call); ok {
+				if cal := call.Call.StaticCallee(); cal != nil && cal.Name() == "waitExitCode" {
+					waits = append(waits, call)
+				}
+			}
+		})
+		if len(waits) == 0 {
+			continue
+		}
+		n++
+		var fromWait func(v ssa.Value, d int) bool
+		fromWait = func(v ssa.Value, d int) bool {
+			if d > 4 {
+				return false
+			}
+			switch x := v.(type) {
+			case *ssa.Extract:
+				if call, ok := x.Tuple.(*ssa.Call); ok && x.Index == 0 {
+					for _, w := range waits {
+						if call == w {
+							return true
+						}
+					}
+				}
+			case *ssa.Phi:
+				for _, e := range x.Edges {
+					if !fromWait(e, d+1) {
+						return false
+					}
+				}
+				return len(x.Edges) > 0
+			case *ssa.ChangeType:
+				return fromWait(x.X, d+1)
+			case *ssa.Convert:
+				return fromWait(x.X, d+1)
+			}
+			return false
+		}
+		badSt, nSt := token.NoPos, 0
+		allInstrs(fn, func(in ssa.Instruction) {
+			st, ok := in.(*ssa.Store)
+			if !ok {
+				return
+			}
+			f, _ := fieldOfAddr(st.Addr)
+			if f == nil || !codeFields[f] {
+				return
+			}
+			waited := false
+			for _, w := range waits {
+				if w.Block() == in.Block() || w.Block().Dominates(in.Block()) {
+					waited = true
+				}
+			}
+			if !waited {
+				return // before the wait: overwritten, or on the already-closed path
+			}
+			nSt++
+			if !fromWait(st.Val, 0) {
+				badSt = posOr(in.Pos(), fn.Pos())
+			}
+		})
+		c.check(badSt == token.NoPos && nSt > 0, "close-status:"+fnKey(fn), posOr(badSt, fn.Pos()),
+			"the status kept for close() is the first result of the wait on every path that waited",
+			fnKey(fn)+" stores something other than the status the wait returned into the stream's status field after waiting for the command (or never stores it): close() then reports a made-up status - for example -1 whenever the final flush met a closed pipe - instead of the command's exit status")
+	}
+	c.atLeast("functions that wait for a command and keep its status", n, 1)
 }
